@@ -174,6 +174,21 @@ Section Disk.
       apply path_eqb_eq in E; subst. exfalso; apply Hq. apply in_map_iff. exists (q, c); auto.
   Qed.
 
+  Lemma lookup_filter_nodup (f : path * B -> bool) (d : disk) p :
+    NoDup (map fst d) ->
+    lookup p (filter f d) =
+    match lookup p d with Some c => if f (p, c) then Some c else None | None => None end.
+  Proof.
+    induction d as [|[q c] r IH]; cbn; intro Hn; [reflexivity|].
+    inversion Hn as [|? ? Hq Hr]; subst.
+    destruct (path_eqb p q) eqn:E.
+    - apply path_eqb_eq in E; subst. destruct (f (q, c)); cbn.
+      + rewrite path_eqb_refl; reflexivity.
+      + rewrite IH by exact Hr.
+        assert (lookup q r = None) as -> by (apply lookup_None_keys; exact Hq). reflexivity.
+    - destruct (f (q, c)); cbn; [rewrite E|]; apply IH; exact Hr.
+  Qed.
+
   Lemma lookup_perm (a b : disk) p :
     Permutation a b -> NoDup (map fst a) -> lookup p a = lookup p b.
   Proof.
@@ -191,7 +206,8 @@ Section Disk.
     NoDup (map fst l) ->
     lookup p (apply_list B l d) = match lookup p l with Some c => Some c | None => lookup p d end.
   Proof.
-    induction l as [|[q c] l IH]; intros d p Hn; cbn; [reflexivity|].
+    unfold apply_list.
+    induction l as [|[q c] l IH]; intros d p Hn; cbn [fold_left fst snd lookup]; [reflexivity|].
     inversion Hn as [|? ? Hq Hr]; subst. rewrite IH by exact Hr.
     destruct (path_eqb p q) eqn:E.
     - apply path_eqb_eq in E; subst.
@@ -203,7 +219,8 @@ Section Disk.
   Lemma lookup_apply_list_other (l : disk) : forall d p,
     ~ In p (map fst l) -> lookup p (apply_list B l d) = lookup p d.
   Proof.
-    induction l as [|[q c] l IH]; intros d p Hn; cbn; [reflexivity|].
+    unfold apply_list.
+    induction l as [|[q c] l IH]; intros d p Hn; cbn [fold_left fst snd]; [reflexivity|].
     cbn in Hn. rewrite IH by tauto. rewrite lookup_set.
     destruct (path_eqb p q) eqn:E; [apply path_eqb_eq in E; subst; tauto|reflexivity].
   Qed.
@@ -253,38 +270,50 @@ Section Steps.
 
   Lemma fsop_refl s : fsop s s true.
   Proof.
-    repeat split; auto.
+    refine (conj eq_refl (conj _ (conj _ _))).
     - exists []; split; [reflexivity|constructor].
+    - intro Q; split; [reflexivity|exact Q].
     - discriminate.
   Qed.
 
   Lemma fsop_trans s s1 s2 ok : fsop s s1 true -> fsop s1 s2 ok -> fsop s s2 ok.
   Proof.
     intros (E1 & (x1 & S1 & F1) & Q1 & _) (E2 & (x2 & S2 & F2) & Q2 & N2).
-    repeat split.
+    refine (conj _ (conj _ (conj _ N2))).
     - congruence.
     - exists (x2 ++ x1). split; [rewrite S2, S1, app_assoc; reflexivity|].
       apply Forall_app; split; [|exact F1].
       eapply Forall_impl; [|exact F2]. cbn; intros e ->; exact E1.
-    - apply Q2, Q1; assumption.
-    - apply Q2, Q1; assumption.
-    - exact N2.
+    - intro Q. apply Q2, Q1; exact Q.
+  Qed.
+
+  (* an operation whose error is ignored *)
+  Lemma fsop_ignore s s1 s2 ok : fsop s s1 true -> fsop s1 s2 ok -> fsop s s2 true.
+  Proof.
+    intros F1 F2. destruct ok; [eapply fsop_trans; eassumption|].
+    destruct F1 as (E1 & (x1 & S1 & A1) & Q1 & _), F2 as (E2 & (x2 & S2 & A2) & Q2 & N2).
+    refine (conj _ (conj _ (conj _ _))).
+    - congruence.
+    - exists (x2 ++ x1). split; [rewrite S2, S1, app_assoc; reflexivity|].
+      apply Forall_app; split; [|exact A1].
+      eapply Forall_impl; [|exact A2]. cbn; intros e ->; exact E1.
+    - intros _. split; [reflexivity|apply N2; reflexivity].
+    - discriminate.
   Qed.
 
   Lemma fsop_with_disk s s' ok f : fsop s s' ok -> fsop s (with_disk B f s') ok.
-  Proof. intros (E & X & Q & N). repeat split; auto; apply Q; assumption. Qed.
+  Proof. intros (E & X & Q & N). exact (conj E (conj X (conj Q N))). Qed.
 
   Lemma fsop_with_disk_l s s' ok f : fsop (with_disk B f s) s' ok -> fsop s s' ok.
-  Proof. intros (E & X & Q & N). repeat split; auto; apply Q; assumption. Qed.
+  Proof. intros (E & X & Q & N). exact (conj E (conj X (conj Q N))). Qed.
 
   Lemma prim_spec hook s fired s1 :
     prim hook s = (fired, s1) -> dsk s1 = dsk s /\ fsop s s1 (negb fired).
   Proof.
-    unfold prim. destruct (tick hook (flt s)) as [fr f'] eqn:T. intro H; inversion H; subst; clear H.
-    split; [reflexivity|]. repeat split; cbn.
+    unfold Model.prim. destruct (tick hook (flt s)) as [fr f'] eqn:T. intro H; inversion H; subst; clear H.
+    split; [reflexivity|]. refine (conj eq_refl (conj _ (conj _ _))); cbn [seen flt eng].
     - exists [eng s]; split; [reflexivity|repeat constructor].
-    - intro Q; rewrite Q in T; cbn in T; inversion T; reflexivity.
-    - intro Q; rewrite Q in T; cbn in T; inversion T; reflexivity.
+    - intro Q; rewrite Q in T; cbn in T; inversion T; split; reflexivity.
     - intro Hf. apply negb_false_iff in Hf; subst. eapply tick_fired; exact T.
   Qed.
 
@@ -309,21 +338,10 @@ Section Steps.
     destruct f0; [intro H; inversion H; subst; split; [exact F0|split; [discriminate|intros; congruence]]|].
     destruct (p_remove true p s0) as [okr s1] eqn:P1. apply p_remove_spec in P1 as (F1 & R1t & R1f).
     assert (F01 : fsop s s1 true /\ forall q, q <> p -> lookup q (dsk s1) = lookup q (dsk s)).
-    { destruct okr.
-      - split; [eapply fsop_trans; eassumption|]. intros q Hq. rewrite R1t, lookup_del by reflexivity.
+    { split; [eapply fsop_ignore; eassumption|]. destruct okr.
+      - intros q Hq. rewrite R1t, lookup_del by reflexivity.
         rewrite D0. destruct (path_eqb p q) eqn:E; [apply path_eqb_eq in E; congruence|reflexivity].
-      - (* the remove failed: the oracle has struck, the error is ignored *)
-        destruct F0 as (E0 & X0 & Q0 & N0), F1 as (E1 & (x1 & S1 & A1) & Q1 & N1).
-        split.
-        + repeat split.
-          * congruence.
-          * destruct X0 as (x0 & S0 & A0). exists (x1 ++ x0).
-            split; [rewrite S1, S0, app_assoc; reflexivity|].
-            apply Forall_app; split; [|exact A0].
-            eapply Forall_impl; [|exact A1]. cbn; intros e ->; exact E0.
-          * intros _. apply N1. reflexivity.
-          * discriminate.
-        + intros q _. rewrite R1f, D0 by reflexivity. reflexivity. }
+      - intros q _. rewrite R1f, D0 by reflexivity. reflexivity. }
     destruct F01 as [F01 K1].
     destruct (prim false s1) as [f2 s2] eqn:P2. apply prim_spec in P2 as [D2 F2].
     destruct f2.
@@ -339,16 +357,16 @@ Section Steps.
     { eapply fsop_trans; [|exact F4]. eapply fsop_trans; [|exact F3]. eapply fsop_trans; eassumption. }
     destruct f4; intro H; inversion H; subst; clear H.
     - split; [apply fsop_with_disk; exact F04|]. split; [discriminate|].
-      intros q Hq. cbn. rewrite lookup_set.
+      intros q Hq. cbn [dsk with_disk]. rewrite lookup_set.
       destruct (path_eqb q p) eqn:E; [apply path_eqb_eq in E; congruence|].
-      rewrite D4; cbn. rewrite lookup_set, E, D3, D2. auto.
+      rewrite D4; cbn [dsk with_disk]. rewrite lookup_set, E, D3, D2. auto.
     - split; [apply fsop_with_disk; exact F04|]. split.
-      + intros _ q. cbn. rewrite !lookup_set.
+      + intros _ q. cbn [dsk with_disk]. rewrite !lookup_set.
         destruct (path_eqb q p) eqn:E; [reflexivity|].
-        rewrite D4; cbn. rewrite lookup_set, E, D3, D2. apply K1. apply path_eqb_neq; exact E.
-      + intros q Hq. cbn. rewrite lookup_set.
+        rewrite D4; cbn [dsk with_disk]. rewrite lookup_set, E, D3, D2. apply K1. apply path_eqb_neq; exact E.
+      + intros q Hq. cbn [dsk with_disk]. rewrite lookup_set.
         destruct (path_eqb q p) eqn:E; [apply path_eqb_eq in E; congruence|].
-        rewrite D4; cbn. rewrite lookup_set, E, D3, D2. auto.
+        rewrite D4; cbn [dsk with_disk]. rewrite lookup_set, E, D3, D2. auto.
   Qed.
 
   Lemma store_all_spec l : forall s ok s',
